@@ -80,6 +80,7 @@ func init() {
 }
 
 func runC42(c *Ctx) {
+	c42PolicyText(c)
 	dT := "gateway/dataplane."
 	if v := c.View("(*" + dT + "RoutingTable).route"); v != nil {
 		rule := "R1-most-specific"
